@@ -212,6 +212,26 @@ def find_dirs(ctx):
     ok = bool(walked) and any(_allocs(e.all_args()) & walked for e in ups)
     ctx.ob(R, 'find_check_cache|find_dirs.update', ok, fcc.node,
            'directories walked by the cache re-check are not recorded')
+    # find_dirs is the complete list the depfile is rewritten from, and a
+    # regeneration that goes ahead serves every search from the pre-filled
+    # cache without walking again: whenever the re-check walks, it records
+    walks = [e for e in F.effects(fcc, lambda e: e.name == '_find_files',
+                                  depth=1)
+             if _allocs(e.arg(2, kw='seen_dirs')) & walked]
+    recs = [e for e in ups if _allocs(e.all_args()) & walked]
+    wc = set()
+    for e in walks:
+        wc |= e.control()
+    extra_ctl = set()
+    for e in recs:
+        extra_ctl |= {a for a in e.control() - wc
+                      if not a.startswith(('const:', 'key:'))}
+    ctx.ob(R, 'find_check_cache|records-whenever-it-walks',
+           bool(walks) and bool(recs) and not extra_ctl, fcc.node,
+           'the walked directories are recorded only under a further '
+           'condition ({}): the depfile of a regeneration that goes ahead '
+           'loses the directories of the other searches'.format(
+               ', '.join(sorted(extra_ctl))[:160]))
     f = F.fn(FIND + 'find_files')
     ok = any(has(t, "['regenerate']", 'depfile') and has(v, 'depfile_name')
              and param_of(F.control(n, f), 'cache')
